@@ -1,7 +1,7 @@
 (** Model of proxy/gzip/gzip_handler.go (NewGzipHandler, GzipResponseWriter.WriteHeader /
     Write / Close, isCompressable, acceptsGzip) running an arbitrary inner handler, given as
     the sequence of calls it makes on its http.ResponseWriter, on top of an
-    httptest.ResponseRecorder (the underlying writer the correspondence harness uses; its
+    httptest.ResponseRecorder behind net/http's 1xx rule (the underlying writer the harness uses; its
     relevant behaviour -- header snapshot at the first WriteHeader/Write, implicit 200,
     Content-Type sniffing -- is transcribed from net/http/httptest/recorder.go).
 
@@ -86,23 +86,29 @@ Section Handler.
 Variable sniff : str -> str.     (* http.DetectContentType *)
 Variable ctm : str -> bool.      (* contentTypes.MatchString *)
 
-(* ---------- httptest.ResponseRecorder ---------- *)
+(* ---------- the underlying http.ResponseWriter ----------
+   httptest.ResponseRecorder behind net/http's rule for informational codes: a 1xx
+   WriteHeader before the final one is sent at once with the current header map and does
+   not finalise the response (the recorder alone would treat it as final). *)
 Record rcd := mkR {
-  r_hdr : hdr;        (* HeaderMap (live) *)
-  r_wrote : bool;     (* wroteHeader *)
-  r_code : N;         (* Code *)
-  r_snap : hdr;       (* snapHeader *)
-  r_body : str        (* Body *)
+  r_hdr : hdr;                (* HeaderMap (live) *)
+  r_wrote : bool;             (* the final header has been written *)
+  r_code : N;                 (* Code *)
+  r_snap : hdr;               (* snapHeader *)
+  r_body : str;               (* Body *)
+  r_info : list (N * hdr)     (* informational responses sent so far: code, headers *)
 }.
 
-Definition rec_new (h0 : hdr) : rcd := mkR h0 false 200 [] [].
+Definition rec_new (h0 : hdr) : rcd := mkR h0 false 200 [] [] [].
 
 Definition rec_upd (f : hdr -> hdr) (r : rcd) : rcd :=
-  mkR (f (r_hdr r)) (r_wrote r) (r_code r) (r_snap r) (r_body r).
+  mkR (f (r_hdr r)) (r_wrote r) (r_code r) (r_snap r) (r_body r) (r_info r).
 
-(* ResponseRecorder.WriteHeader *)
+(* WriteHeader *)
 Definition rec_write_header (c : N) (r : rcd) : rcd :=
-  if r_wrote r then r else mkR (r_hdr r) true c (r_hdr r) (r_body r).
+  if r_wrote r then r
+  else if is_1xx c then mkR (r_hdr r) false (r_code r) (r_snap r) (r_body r) (r_info r ++ [(c, r_hdr r)])
+  else mkR (r_hdr r) true c (r_hdr r) (r_body r) (r_info r).
 
 (* ResponseRecorder.Write = writeHeader(buf, "") ; Body.Write(buf) *)
 Definition rec_write (b : str) (r : rcd) : rcd :=
@@ -113,8 +119,8 @@ Definition rec_write (b : str) (r : rcd) : rcd :=
                 | None => if beq (hget (r_hdr r) H_TE) [] then rec_upd (fun h => hset h H_CT (sniff b)) r else r
                 | Some _ => r
                 end in
-      rec_write_header 200 r' in
-  mkR (r_hdr r1) (r_wrote r1) (r_code r1) (r_snap r1) (r_body r1 ++ b).
+      mkR (r_hdr r') true 200 (r_hdr r') (r_body r') (r_info r') in
+  mkR (r_hdr r1) (r_wrote r1) (r_code r1) (r_snap r1) (r_body r1 ++ b) (r_info r1).
 
 Definition rec_step (o : op) (r : rcd) : rcd :=
   match o with
@@ -131,12 +137,12 @@ Record grw := mkG {
   g_rec : rcd            (* the embedded http.ResponseWriter *)
 }.
 
-(* isCompressable (gzip_handler.go:106-113) *)
+(* isCompressable *)
 Definition is_compressable (h : hdr) : bool :=
   if beq (hget h H_CE) [] then ctm (hget h H_CT) else false.
 
-(* GzipResponseWriter.WriteHeader (66-80) *)
-Definition grw_write_header (c : N) (g : grw) : grw :=
+(* the decision and the final header (WriteHeader below the 1xx guard) *)
+Definition grw_decide_write_header (c : N) (g : grw) : grw :=
   let g1 :=
     match g_sel g with
     | None =>
@@ -149,8 +155,13 @@ Definition grw_write_header (c : N) (g : grw) : grw :=
     end in
   mkG (g_sel g1) (g_fed g1) (g_panic g1) (rec_write_header c (g_rec g1)).
 
-(* GzipResponseWriter.Write (82-91) *)
-Definition grw_write (b : str) (g : grw) : grw :=
+(* GzipResponseWriter.WriteHeader: an informational code is passed through and decides nothing *)
+Definition grw_write_header (c : N) (g : grw) : grw :=
+  if is_1xx c then mkG (g_sel g) (g_fed g) (g_panic g) (rec_write_header c (g_rec g))
+  else grw_decide_write_header c g.
+
+(* GzipResponseWriter.Write, parametrised by the WriteHeader it calls *)
+Definition grw_write_with (wh : N -> grw -> grw) (b : str) (g : grw) : grw :=
   let g1 :=
     match g_sel g with
     | None =>
@@ -158,7 +169,7 @@ Definition grw_write (b : str) (g : grw) : grw :=
                   | None => rec_upd (fun h => hset h H_CT (sniff b)) (g_rec g)
                   | Some _ => g_rec g
                   end in
-        grw_write_header 200 (mkG (g_sel g) (g_fed g) (g_panic g) r')
+        wh 200 (mkG (g_sel g) (g_fed g) (g_panic g) r')
     | Some _ => g
     end in
   match g_sel g1 with
@@ -167,6 +178,8 @@ Definition grw_write (b : str) (g : grw) : grw :=
   | None => mkG (g_sel g1) (g_fed g1) true (g_rec g1)
   end.
 
+Definition grw_write : str -> grw -> grw := grw_write_with grw_write_header.
+
 Definition grw_step (o : op) (g : grw) : grw :=
   match o with
   | WriteHeader c => grw_write_header c g
@@ -174,33 +187,48 @@ Definition grw_step (o : op) (g : grw) : grw :=
   | _ => mkG (g_sel g) (g_fed g) (g_panic g) (rec_upd (hdr_op o) (g_rec g))
   end.
 
+(* the code before commit a52f2fd: every WriteHeader, informational or not, decided *)
+Definition grw_step_unrepaired (o : op) (g : grw) : grw :=
+  match o with
+  | WriteHeader c => grw_decide_write_header c g
+  | Write b => grw_write_with grw_decide_write_header b g
+  | _ => mkG (g_sel g) (g_fed g) (g_panic g) (rec_upd (hdr_op o) (g_rec g))
+  end.
+
 Definition grw_run (ops : list op) (g : grw) : grw := fold_left (fun g o => grw_step o g) ops g.
 Definition rec_run (ops : list op) (r : rcd) : rcd := fold_left (fun r o => rec_step o r) ops r.
 
-(* ---------- what the client of the recorder sees ---------- *)
+(* ---------- what the client sees ---------- *)
 Record result := mkRes {
-  o_code : N;
-  o_hdr : hdr;             (* Result().Header: the snapshot, or the live map when nothing was written *)
-  o_plain : str;           (* bytes written to the recorder directly *)
+  o_code : N;              (* final status *)
+  o_hdr : hdr;             (* final headers: the snapshot, or the live map when nothing was written *)
+  o_plain : str;           (* bytes written to the underlying writer directly *)
   o_fed : option str;      (* Some f: a gzip writer was used, fed f, closed (flushes everything) *)
-  o_panic : bool
+  o_panic : bool;
+  o_info : list (N * hdr)  (* the informational responses, in order *)
 }.
 
 Definition rec_result (r : rcd) (fed : option str) (p : bool) : result :=
-  mkRes (r_code r) (if r_wrote r then r_snap r else r_hdr r) (r_body r) fed p.
+  mkRes (r_code r) (if r_wrote r then r_snap r else r_hdr r) (r_body r) fed p (r_info r).
 
-(* Close (93-98): gzipWriter != nil  <->  the decision was "compress" *)
+(* Close: gzipWriter != nil  <->  the decision was "compress" *)
 Definition grw_result (g : grw) : result :=
   rec_result (g_rec g) (match g_sel g with Some true => Some (g_fed g) | _ => None end) (g_panic g).
 
-(* NewGzipHandler (41-53); [h0] = headers already on the ResponseWriter *)
+(* NewGzipHandler; [h0] = headers already on the ResponseWriter *)
 Definition handler (h0 : hdr) (accept ae : list str) (ops : list op) : result :=
   let r0 := rec_new (hadd h0 H_VARY H_AE) in
   if accepts_gzip accept ae
   then grw_result (grw_run ops (mkG None [] false r0))
   else rec_result (rec_run ops r0) None false.
 
-(* the reference: the same inner handler writing to the recorder directly = "what the upstream produced" *)
+Definition handler_unrepaired (h0 : hdr) (accept ae : list str) (ops : list op) : result :=
+  let r0 := rec_new (hadd h0 H_VARY H_AE) in
+  if accepts_gzip accept ae
+  then grw_result (fold_left (fun g o => grw_step_unrepaired o g) ops (mkG None [] false r0))
+  else rec_result (rec_run ops r0) None false.
+
+(* the reference: the same inner handler writing to the underlying writer directly = "what the upstream produced" *)
 Definition bare (h0 : hdr) (ops : list op) : result :=
   rec_result (rec_run ops (rec_new h0)) None false.
 
